@@ -249,6 +249,36 @@ def Effect.matches (e : Effect) (after : Tables) : Bool :=
   e.ok && (e.ribFree || sameRib e.t.rib after.rib) && (e.fibFree || sameFib e.t.fib after.fib) &&
   sameSc e.t.sc after.sc && e.t.cs == after.cs && sameFaces e.t.faces after.faces
 
+/-! ### the FIB follows the RIB (the C06 relation, evaluated on C17 histories by the driver) -/
+
+def routeHasInherit (r : Route) : Bool := r.flags % 2 == 1
+def routeHasCapture (r : Route) : Bool := r.flags / 2 % 2 == 1
+
+/-- routes inherited by an entry: child-inherit routes of the entries at proper prefixes, nearest
+    first, up to and including the first one that holds a capture route -/
+def inheritedRoutes (rib : Rib) : Nat → Name → List Route
+  | 0, _ => []
+  | k + 1, m =>
+    let anc := m.take k
+    let rs := (rib.find? (fun e => e.1 == anc)).map (·.2) |>.getD []
+    let here := rs.filter routeHasInherit
+    if rs.any routeHasCapture then here else here ++ inheritedRoutes rib k m
+
+def minCostHops (rs : List Route) : List (Nat × Nat) :=
+  rs.foldl (fun acc r => match acc.find? (·.1 == r.face) with
+    | some (_, c) => if r.cost < c then acc.map (fun h => if h.1 == r.face then (h.1, r.cost) else h) else acc
+    | none => acc ++ [(r.face, r.cost)]) []
+
+/-- `RibEntry.ownNexthopsUpdate` for an entry with routes -/
+def flattenAt (rib : Rib) (m : Name) (own : List Route) : List (Nat × Nat) :=
+  minCostHops (own ++ (if own.any routeHasCapture then [] else inheritedRoutes rib m.length m))
+
+/-- every RIB entry at or below `under` has exactly its flattened next hops in the FIB -/
+def fibFollowsRib (rib : Rib) (fib : Fib) (under : Name) : Bool :=
+  rib.all fun e =>
+    !(under.isPrefixOf e.1) ||
+    (sortBy hopLe (flattenAt rib e.1 e.2) == sortBy hopLe ((fib.find? (fun x => x.1 == e.1)).map (·.2) |>.getD []))
+
 /-! ### table invariants that keep the daemon alive -/
 
 def usable (t : Tables) : Bool :=
